@@ -1166,13 +1166,17 @@ func requiredCases(t *gcore.Type) []gcore.Case {
 		default:
 			sub = f.Message()
 		}
-		if sub == nil || !hasRequired(sub) {
+		if sub == nil || !needsRequired(sub, 0) {
 			continue
 		}
 		for _, deficient := range []bool{true, false} {
 			m := full()
 			v := dynamicpb.NewMessage(sub)
-			if !deficient {
+			if !hasRequired(sub) {
+				// the child type has no required field of its own, a message further down has (Top -> Outer -> Inner):
+				// the verdict has to travel up through a level that has nothing to check itself
+				v = deepValue(sub, deficient, 0)
+			} else if !deficient {
 				gcore.FillRequired(v)
 			} else {
 				// set something optional so the deficient message is not empty on the wire
@@ -1273,6 +1277,69 @@ func requiredCases(t *gcore.Type) []gcore.Case {
 		out = append(out, gcore.Case{ID: "empty-message", Msg: dynamicpb.NewMessage(md)})
 	}
 	return out
+}
+
+// needsRequired: md has a required field itself or, transitively, through a message-typed field.
+func needsRequired(md protoreflect.MessageDescriptor, depth int) bool {
+	if hasRequired(md) {
+		return true
+	}
+	if depth > 3 {
+		return false
+	}
+	for i := 0; i < md.Fields().Len(); i++ {
+		f := md.Fields().Get(i)
+		sub := f.Message()
+		if f.IsMap() {
+			sub = f.MapValue().Message()
+		}
+		if sub != nil && sub.FullName() != md.FullName() && needsRequired(sub, depth+1) {
+			return true
+		}
+	}
+	return false
+}
+
+// deepValue builds a value of md (which has no required field of its own) whose first message-typed field leading to a
+// required field holds a deficient / complete value, recursively.
+func deepValue(md protoreflect.MessageDescriptor, deficient bool, depth int) *dynamicpb.Message {
+	m := dynamicpb.NewMessage(md)
+	for i := 0; i < md.Fields().Len(); i++ {
+		f := md.Fields().Get(i)
+		sub := f.Message()
+		if f.IsMap() {
+			sub = f.MapValue().Message()
+		}
+		if sub == nil || sub.FullName() == md.FullName() || !needsRequired(sub, depth+1) {
+			continue
+		}
+		var child *dynamicpb.Message
+		switch {
+		case !hasRequired(sub):
+			child = deepValue(sub, deficient, depth+1)
+		case deficient:
+			child = dynamicpb.NewMessage(sub)
+			for j := 0; j < sub.Fields().Len(); j++ {
+				if sf := sub.Fields().Get(j); sf.Cardinality() == protoreflect.Optional && sf.Message() == nil {
+					gcore.SetSimple(child, sf)
+					break
+				}
+			}
+		default:
+			child = dynamicpb.NewMessage(sub)
+			gcore.FillRequired(child)
+		}
+		switch {
+		case f.IsMap():
+			m.Mutable(f).Map().Set(protoreflect.ValueOfString("k").MapKey(), protoreflect.ValueOfMessage(child))
+		case f.IsList():
+			m.Mutable(f).List().Append(protoreflect.ValueOfMessage(child))
+		default:
+			m.Set(f, protoreflect.ValueOfMessage(child))
+		}
+		break
+	}
+	return m
 }
 
 func hasRequired(md protoreflect.MessageDescriptor) bool {
